@@ -41,6 +41,7 @@ type scScenario struct {
 	Empty    bool   `json:"empty"`
 	WasAdm   bool   `json:"wasadmin"`
 	LinkHash bool   `json:"linkhash"` // <user>.user is a symlink to <dir>/outside/<user>.user
+	Residue  bool   `json:"residue"`  // what interrupted earlier operations leave behind: empty erin.user / frank.admin (names reserved by adds that were killed)
 }
 
 func scScenarios() []scScenario {
@@ -92,6 +93,14 @@ func scScenarios() []scScenario {
 		scScenario{Name: "ro-list", Op: "list", Algo: "scrypt"},
 		scScenario{Name: "ro-listfull", Op: "listfull", Algo: "argon"},
 		scScenario{Name: "ro-check", Op: "check", Algo: "scrypt"},
+		// the same calls on a store that carries the residue of interrupted operations
+		scScenario{Name: "ro-auth-empty-reservation", Op: "auth", User: "erin", OldPw: "x", Algo: "scrypt", Residue: true},
+		scScenario{Name: "ro-auth-empty-admin-reservation", Op: "auth", User: "frank", OldPw: "", Algo: "argon", Residue: true},
+		scScenario{Name: "ro-exists-empty-reservation", Op: "exists", User: "frank", Algo: "scrypt", Residue: true},
+		scScenario{Name: "ro-list-residue", Op: "list", Algo: "scrypt", Residue: true},
+		scScenario{Name: "ro-listfull-residue", Op: "listfull", Algo: "argon", Residue: true},
+		scScenario{Name: "ro-check-residue", Op: "check", Algo: "scrypt", Residue: true},
+		scScenario{Name: "ro-auth-ok-residue", Op: "auth", User: "alice", OldPw: "alice-old", Algo: "scrypt", AuxLen: 100, Residue: true},
 	)
 	return out
 }
@@ -204,6 +213,10 @@ func scprep() {
 			os.Symlink(filepath.Join(dir, "does-not-exist", "tmp"), filepath.Join(base, ".tmp")) //nolint:errcheck
 		case !sc.NoTmp:
 			os.Mkdir(filepath.Join(base, ".tmp"), 0700) //nolint:errcheck
+		}
+		if sc.Residue {
+			os.WriteFile(filepath.Join(base, "erin.user"), nil, 0600)   //nolint:errcheck
+			os.WriteFile(filepath.Join(base, "frank.admin"), nil, 0600) //nolint:errcheck
 		}
 	}
 }
